@@ -454,8 +454,11 @@ def functions_touching(model: Model, cg: CallGraph, flag: Flag) -> list:
     for f in flag.mixed:
         if f.qualname not in cm_methods:
             out[f.qualname] = f
+    prims = {x.qualname for x in flag.setters + flag.clearers + flag.getters}
     for f in flag.setters + flag.clearers:
         for caller, _ in cg.callers(f):
-            if isinstance(caller, FuncInfo) and caller.module.short != "_storage" and caller.qualname not in cm_methods:
+            # every function that calls a setter / clearer and is not itself one of the primitives -- also inside
+            # the storage module (a context-manager helper defined next to the primitives)
+            if isinstance(caller, FuncInfo) and caller.qualname not in prims and caller.qualname not in cm_methods:
                 out[caller.qualname] = caller
     return list(out.values())
